@@ -100,11 +100,23 @@ type World struct {
 	// OpMaps tells which maps the space's operations may address (nil: root maps only).
 	OpMaps func(c *Cont) bool
 
+	// TwinBase builds the world the event-free twin history starts from (History is replayed on it).
+	TwinBase func() (*World, error)
+
+	// EverCompact: some committed register used the shared compact-map encoding at some commit.
+	EverCompact bool
+
+	TrackCommits bool // keep a model+ledger snapshot at every commit (crash oracle)
 	KeyStorage bool // include storage-layer counters in the state key
 	StrictErr bool // also compare error categories/types of rejected requests (C18)
 
-	// Committed is the model content (rendered) of every live root at the last successful commit.
-	Committed map[int]string
+	// CommittedConts is a deep copy of the model at the last successful commit (nil: never committed);
+	// CommittedLedger is the ledger snapshot taken right after that commit.
+	CommittedConts  []*Cont
+	CommittedLedger *Ledger
+
+	// History is every operation applied so far (seed included).
+	History []Op
 }
 
 var DefaultAddr = atree.Address{1, 2, 3, 4, 5, 6, 7, 8}
@@ -713,6 +725,7 @@ func (w *World) Apply(o Op) (err error) {
 	}()
 	w.Steps++
 	w.LastRet = ""
+	w.History = append(w.History, o)
 	err = w.apply(o)
 	w.Rets = append(w.Rets, w.LastRet)
 	return err
@@ -1166,12 +1179,14 @@ func (w *World) Commit(workers int, relaxed bool) error {
 		return violf("commit failed: %v", err)
 	}
 	w.Commits++
-	w.Committed = map[int]string{}
-	for _, c := range w.LiveRoots() {
-		if c.SID.HasTempAddress() {
-			continue
+	for _, b := range w.Ledger.Regs {
+		if hasCompactMap(b) {
+			w.EverCompact = true
 		}
-		w.Committed[c.Serial] = MVString(c)
+	}
+	if w.TrackCommits {
+		w.CommittedConts = cloneConts(w.Conts)
+		w.CommittedLedger = w.Ledger.Snapshot()
 	}
 	return nil
 }
